@@ -3,6 +3,7 @@ use crate::report::Ctx;
 use crate::rng::Rng;
 
 pub mod hist;
+pub mod mass;
 pub mod netval;
 pub mod path;
 pub mod powertrain;
@@ -123,6 +124,9 @@ pub fn spec(id: &str) -> Option<Spec> {
         "C19" => Spec { id: "C19", run: hist::run_c19, cases_quick: 9600, cases_thorough: 300000,
             rule: "case = one run of one simulation kind (LocomotiveSimulation, ConsistSimulation, SetSpeedTrainSim, SpeedLimitTrainSim whole/timed/link-by-link) with a save interval from {None,1,2,3,7,50,>run} set at construction or through the top-level setter, run lengths 1..900, 30 % of powertrain traces carry an over-limit demand at a chosen step so the run ends with an error; a generic walker collects (len, i column, state.i, save_interval) of every history in the object tree and checks equal lengths, same step per row, equal counters, row count = steps whose index is a multiple of the interval (+ initial state when every step is saved), empty when disabled, interval propagated. Non-trivial = interval not in {None,1} on a consist with >=2 unit kinds; distinct = hash of interval/run length/size",
             assumptions: TRAIN_ASSUME },
+        "C20" => Spec { id: "C20", run: mass::run_c20, cases_quick: 24000, cases_thorough: 1000000,
+            rule: "case = one object (FuelConverter / Generator / ReversibleEnergyStorage / Locomotive loaded from JSON with redundant mass data: none, consistent, inconsistent, partial) followed by 1..12 random calls of set_mass (all MassSideEffect options, Some/None/derived values), expunge_mass_fields, set_force_max (all five ForceMaxSideEffect options), set_mu (all three MuSideEffect options); or a consist of 1..8 units + a built train. After an accepted call: getters Ok, mass == rating/specific, force_max == mu*mass*g when both known, option-specific side effects; after a rejected call: every getter that was Ok reports the same value. Non-trivial = sequence with >=1 accepted and >=1 rejected call; distinct = case hash",
+            assumptions: &["private mass fields are read through serde_json (pyo3-only getters cannot be linked into a Rust harness)", "Locomotive sequences start from the shipped conventional / battery-electric defaults with mass, mu, force_max overwritten in the JSON"] },
         _ => return None,
     })
 }
